@@ -50,6 +50,9 @@ type Type struct {
 type View struct {
 	Name   string   `json:"name"`
 	Fields []string `json:"fields"`
+	// Alt renders a field of the view with another user type than the attribute's own (index into UTs):
+	// what expr.Project leaves behind -- a type reachable through a view only.
+	Alt map[string]int `json:"alt,omitempty"`
 }
 
 type UT struct {
@@ -158,7 +161,14 @@ func (g *Graph) clone() *Graph {
 		nu.A = u.A.clone()
 		nu.Views = nil
 		for _, v := range u.Views {
-			nu.Views = append(nu.Views, View{Name: v.Name, Fields: append([]string{}, v.Fields...)})
+			nv := View{Name: v.Name, Fields: append([]string{}, v.Fields...)}
+			if v.Alt != nil {
+				nv.Alt = map[string]int{}
+				for k, x := range v.Alt {
+					nv.Alt[k] = x
+				}
+			}
+			nu.Views = append(nu.Views, nv)
 		}
 		o.UTs = append(o.UTs, &nu)
 	}
@@ -1090,4 +1100,38 @@ func (g *Graph) objectFreeCycle() bool {
 		}
 	}
 	return false
+}
+
+// withViewOnly embeds g in a result type whose default view renders a nested result type field with a
+// sibling result type that NO attribute refers to (reachable through the view only), as the projections
+// computed by expr.Project do. variant selects what the view-only type looks like.
+func withViewOnly(g *Graph, variant int) *Graph {
+	o := g.clone()
+	n := len(o.UTs)
+	leafAtt := func() *Att {
+		return O(Fd("a", P("string")), Fd("b", P("int")))
+	}
+	// n: nested type used by the attribute; n+1: its view-only sibling; n+2: the parent
+	vn := &UT{Name: "VN", UID: "application/vnd.vn", Result: true, A: leafAtt(),
+		Views: []View{{Name: "default", Fields: []string{"a", "b"}}, {Name: "tiny", Fields: []string{"a"}}}}
+	vn2 := &UT{Name: "VN", UID: "application/vnd.vn; view=default", Result: true, A: leafAtt(),
+		Views: []View{{Name: "default", Fields: []string{"a", "b"}}}}
+	if variant%2 == 1 {
+		// the view-only type itself renders a field through a further view-only type (two levels)
+		vn2.A = O(Fd("a", P("string")), Fd("b", P("int")), Fd("deep", Rf(n)))
+		vn2.Views = []View{{Name: "default", Fields: []string{"a", "deep"}, Alt: map[string]int{"deep": n + 3}}, {Name: "tiny", Fields: []string{"a"}}}
+	}
+	vp := &UT{Name: "VP", UID: "application/vnd.vp", Result: true,
+		A: O(Fd("x", P("int")), Fd("nested", Rf(n)), Fd("orig", o.Root)),
+		Views: []View{{Name: "default", Fields: []string{"x", "nested"}, Alt: map[string]int{"nested": n + 1}}, {Name: "link", Fields: []string{"x"}}}}
+	o.UTs = append(o.UTs, vn, vn2, vp)
+	if variant%2 == 1 {
+		o.UTs = append(o.UTs, &UT{Name: "VD", UID: "application/vnd.vd; view=tiny", Result: true, A: leafAtt(),
+			Views: []View{{Name: "default", Fields: []string{"a"}}, {Name: "other", Fields: []string{"b"}}}})
+	}
+	o.Root = Rf(n + 2)
+	if variant%4 >= 2 {
+		o.Root = Ar(Rf(n + 2))
+	}
+	return o
 }
